@@ -325,3 +325,51 @@ def run_cli(script, args, stdin='pipe-open', input_bytes=None, timeout=120, env_
                 p.stdin.close()
         except Exception:
             pass
+
+
+def run_cli_quit(script, args, after_bytes=1, quit_line=b'q\n', timeout=120, env_extra=None):
+    """run a CLI with stdin a pipe; once `after_bytes` bytes of stdout have arrived, write `quit_line` to it (the user types q while
+    guesses are flowing).  Returns (stdout bytes, stderr bytes, returncode).  Where the quit lands is up to the scheduler; the
+    caller judges what is true for every landing point."""
+    import threading
+    snap = snapshot()
+    env = dict(os.environ)
+    env['PYTHONIOENCODING'] = 'utf-8'
+    env['PYTHONHASHSEED'] = env.get('PYTHONHASHSEED', '0')
+    env[GUARD] = '1'
+    if env_extra:
+        env.update(env_extra)
+    cmd = [sys.executable, os.path.join(snap, script)] + list(args)
+    p = subprocess.Popen(cmd, stdin=subprocess.PIPE, stdout=subprocess.PIPE, stderr=subprocess.PIPE, cwd=snap, env=env)
+    bufs = {'err': b''}
+
+    def rd_err():
+        bufs['err'] = p.stderr.read()
+    t = threading.Thread(target=rd_err)
+    t.start()
+    out = b''
+    sent = False
+    try:
+        while True:
+            chunk = p.stdout.read1(65536) if hasattr(p.stdout, 'read1') else p.stdout.read(4096)
+            if not chunk:
+                break
+            out += chunk
+            if not sent and len(out) >= after_bytes:
+                sent = True
+                try:
+                    p.stdin.write(quit_line)
+                    p.stdin.flush()
+                except OSError:
+                    pass
+        p.wait(timeout=timeout)
+        t.join(timeout=10)
+        return out, bufs['err'], p.returncode
+    finally:
+        try:
+            if p.poll() is None:
+                p.kill()
+            if p.stdin and not p.stdin.closed:
+                p.stdin.close()
+        except Exception:
+            pass
